@@ -24,7 +24,9 @@ IGNORES = {
             {'kind': 'str', 'value': 'a', 'flags': ''}, {'kind': 'str', 'value': 'b ', 'flags': ''}, {'kind': 'str', 'value': 'c', 'flags': ''},
             # pairs where one ignored string is a proper prefix of another one (both match at the same position, the longer
             # one is not reachable by chaining the shorter): '_' / '_a', ' ' / ' b', 'c' / 'ca'
-            {'kind': 'str', 'value': '_a', 'flags': ''}, {'kind': 'str', 'value': ' b', 'flags': ''}, {'kind': 'str', 'value': 'ca', 'flags': ''}],
+            {'kind': 'str', 'value': '_a', 'flags': ''}, {'kind': 'str', 'value': ' b', 'flags': ''}, {'kind': 'str', 'value': 'ca', 'flags': ''},
+            # longer ignored strings: they can start inside a token that is being matched and end well after it
+            {'kind': 'str', 'value': 'bca', 'flags': ''}, {'kind': 'str', 'value': 'c_ab', 'flags': ''}, {'kind': 'str', 'value': 'a bc', 'flags': ''}],
     're': [{'kind': 'str', 'value': ' ', 'flags': ''}, {'kind': 're', 'value': ' +', 'flags': ''},
            {'kind': 're', 'value': '[ _]', 'flags': ''}, {'kind': 're', 'value': '_+|c', 'flags': ''},
            {'kind': 'str', 'value': '_a', 'flags': ''}, {'kind': 'str', 'value': ' b', 'flags': ''}],
